@@ -207,7 +207,9 @@ def r12_opaque(body, begin, end, replace, log, name='', include_end=True, nth=No
         if j < 0:
             raise ExtractError(f"R12 anchor lost (end): {end!r}")
         j = j + len(end) if include_end else j
-    log.append(f"R12 opaque block {name!r}: {body[i:j].count(chr(10)) + 1} line(s) replaced by `{replace.strip()}`")
+    import hashlib
+    sha = hashlib.sha256(' '.join(body[i:j].split()).encode()).hexdigest()[:12]
+    log.append(f"R12 opaque block {name!r}: {body[i:j].count(chr(10)) + 1} line(s) sha={sha} replaced by `{replace.strip()}`")
     return body[:i] + replace + body[j:]
 
 
